@@ -41,7 +41,7 @@ NON_WRITER_SERIALIZERS = {
     "_serialize_to_writer": "generic writer adaptor (no caller in src)",
     "remap_note_content_for_target_commit": "re-serialises an existing note text (input is a note); returned to the remap writers, which are rows of the table",
     "show_authorship": "commands/show.rs: prints the note to stdout (println!), writes nothing",
-    "note_carried_over_without_lines": "rebase_authorship.rs (74aa63f9): returns either an existing note's text "
+    "note_carried_over_without_lines": "rebase_authorship.rs (082b3ae9): returns either an existing note's text "
         "(remap_note_content_for_target_commit) or the serialised COMPUTED note of a rewritten commit; both callers "
         "(rewrite_authorship_after_rebase_v2, rewrite_authorship_after_cherry_pick - rows of the table) call it only in the "
         "else-branch of `if computed_note_has_payload`, where the computed note has no attestations and an EMPTY prompts map, "
